@@ -65,6 +65,12 @@ def gen_case(impl, rng):
         forest_shapes += rng.sample(PREFIX, rng.randint(1, 2))
     for _ in range(rng.choice([1, 2, 3, 4])):
         forest_shapes.append(nc.gen_small_shape(rng, rng.choice([1, 2, 3, 4])))
+    if rng.random() < 0.35:
+        # twins: one non-leaf shape at two (or three) positions -- an identity key designates ONE of them
+        tw = nc.gen_small_shape(rng, rng.choice([2, 3]))
+        if isinstance(tw, tuple) and tw:
+            for _ in range(rng.choice([2, 2, 3])):
+                forest_shapes.insert(rng.randrange(len(forest_shapes) + 1), rng.choice([tw, ('w', tw, 'k'), ('v', tw)]))
     if rng.random() < 0.2:
         forest_shapes.insert(rng.randrange(len(forest_shapes) + 1), ('set-info', ':late'))
     forest = impl.from_shapes(forest_shapes)
